@@ -90,7 +90,14 @@ def run(seed_id, props):
     results = {}
     try:
         rc, out = sh(f'git apply {d / "patch.diff"}', cwd=wt)
-        assert rc == 0, out
+        if rc != 0:   # the tree moved on since the change was written (repairs nearby): try a three-way merge
+            rc, out = sh(f'git apply --3way {d / "patch.diff"}', cwd=wt)
+            if rc != 0 or sh('git diff --name-only --diff-filter=U', cwd=wt)[1].strip():
+                meta.setdefault('detection', {})['_note'] = ('patch no longer applies at /repo HEAD ' +
+                                                              sh('git -C /repo rev-parse --short HEAD')[1].strip())
+                (d / 'meta.json').write_text(json.dumps(meta, indent=1) + '\n')
+                print(seed_id, 'patch does not apply at current HEAD', flush=True)
+                return {}
         for p in props:
             t0 = time.time()
             ev = Path(f'/tmp/seedrun_ev_{seed_id}_{os.getpid()}')
